@@ -59,7 +59,7 @@ class SimDeadlock(RuntimeError):
     pass
 
 
-DEFAULT_SCHED = {"dur": [1.0], "lat": [0.0], "slow": {}, "stall": [], "tie": [0], "chunk": "default", "advance": 0}
+DEFAULT_SCHED = {"dur": [1.0], "lat": [0.0], "slow": {}, "stall": [], "tie": [0], "chunk": "default", "advance": 0, "tslice": [1000000]}
 
 
 class Kernel(object):
@@ -81,6 +81,8 @@ class Kernel(object):
         self.uncontrolled = 0
         self.maps = []               # per map call: dict(n_workers, chunks, completion order)
         self.events_run = 0
+        self.threads_in_flight = []  # tasks of thread pools whose bodies have not finished
+        self.tslice_counter = 0
 
     # ---- configuration per build -------------------------------------------------------------
     def configure(self, sched, mode="inproc"):
@@ -169,6 +171,26 @@ class Kernel(object):
             if not self.step():
                 break
 
+    def run_threads_until(self, target):
+        """co-schedule the bodies of all thread-pool tasks in flight, a plan-given slice of aotools lines at a time,
+        until `target`'s body has finished"""
+        sl = self.sched.get("tslice") or [7]
+        guard = 0
+        while not target.tthread.finished:
+            live = [t for t in self.threads_in_flight if not t.tthread.finished]
+            if not live:
+                break
+            t = live[self._tie(len(live))] if len(live) > 1 else live[0]
+            budget = sl[self.tslice_counter % len(sl)]
+            self.tslice_counter += 1
+            if len(live) > 1 and self.res is not None:
+                self.res.count("sched.thread_switches")
+            t.tthread.resume(budget)
+            guard += 1
+            if guard > 5000000:
+                raise SimDeadlock("thread scheduler: budget exhausted")
+        self.threads_in_flight = [t for t in self.threads_in_flight if not t.tthread.finished]
+
     # ---- teardown ------------------------------------------------------------------------------------
     def shutdown(self):
         for p in self.pools:
@@ -194,14 +216,84 @@ class Kernel(object):
         self.heap = []
 
 
+_AOT_DIR = [None]
+
+
+def _aotools_dir():
+    if _AOT_DIR[0] is None:
+        try:
+            import aotools
+            _AOT_DIR[0] = os.path.dirname(os.path.abspath(aotools.__file__)) + os.sep
+        except Exception:
+            _AOT_DIR[0] = "\0"
+    return _AOT_DIR[0]
+
+
+class _TaskThread(object):
+    """One task of a *thread* pool. Threads share memory with the parent and with each other, so how their bodies
+    interleave matters. The body runs in a real thread, but only while it holds the baton: the scheduler resumes it for a
+    plan-given number of line events inside aotools code, then it parks again. One thread runs at a time, switch points
+    are counted lines: the interleaving is decided by the plan and replays exactly."""
+
+    def __init__(self, body):
+        self.body = body
+        self.go = _threading.Event()
+        self.back = _threading.Event()
+        self.finished = False
+        self.started = False
+        self.outcome = None
+        self.budget = 0
+        self.lines = 0
+        self.thread = _threading.Thread(target=self._run, daemon=True)
+
+    def _run(self):
+        import sys
+        self.go.wait()
+        self.go.clear()
+        sys.settrace(self._trace_global)
+        try:
+            self.outcome = (True, self.body())
+        except BaseException as e:          # noqa: B902 - delivered to the parent like a pool does
+            self.outcome = (False, e)
+        finally:
+            sys.settrace(None)
+            self.finished = True
+            self.back.set()
+
+    def _trace_global(self, frame, event, arg):
+        if frame.f_code.co_filename.startswith(_aotools_dir()):
+            return self._trace_local
+        return None
+
+    def _trace_local(self, frame, event, arg):
+        if event == "line":
+            self.lines += 1
+            self.budget -= 1
+            if self.budget <= 0:
+                self.back.set()             # hand the baton back
+                self.go.wait()              # parked until the scheduler resumes this thread
+                self.go.clear()
+        return self._trace_local
+
+    def resume(self, budget):
+        self.budget = max(1, int(budget))
+        self.back.clear()
+        if not self.started:
+            self.started = True
+            _REAL["Thread.start"](self.thread)
+        self.go.set()
+        self.back.wait()
+
+
 class _Task(object):
-    __slots__ = ("func", "items", "star", "kwds", "sink", "index", "duration", "worker", "outcome", "n")
+    __slots__ = ("func", "items", "star", "kwds", "sink", "index", "duration", "worker", "outcome", "n", "tthread")
 
     def __init__(self, func, items, star, kwds, sink, index):
         self.func, self.items, self.star, self.kwds, self.sink, self.index = func, items, star, kwds, sink, index
         self.duration = 0.0
         self.worker = None
         self.outcome = None
+        self.tthread = None
         self.n = len(items)
 
 
@@ -468,7 +560,14 @@ class SimPool(object):
                 k.res.count("fault.slow_worker_task")
         task.duration = dur
         # the task body runs when the DES starts it
-        if self._mode == "forked":
+        if self._flavour == "thread":
+            # threads: no pickle boundary, shared memory; the body runs interleaved with the other tasks in flight
+            f, items, star, kw = task.func, task.items, task.star, task.kwds
+            task.tthread = _TaskThread(lambda: _run_chunk(f, items, star, kw))
+            k.threads_in_flight.append(task)
+            if k.res is not None:
+                k.res.count("pool.thread_tasks")
+        elif self._mode == "forked":
             task.outcome = self._remote(w, task)
         else:
             try:
@@ -490,6 +589,9 @@ class SimPool(object):
         self._busy.pop(w, None)
         if self._state == "TERMINATE":
             return
+        if task.tthread is not None:
+            k.run_threads_until(task)
+            task.outcome = task.tthread.outcome
         if k.log is not None:
             k.log.sched("done", round(k.now, 9), w, task.index)
         self._outstanding -= 1
